@@ -152,19 +152,27 @@ func (endp *Endpoint) Init(cfg *config.Map) error {
 func autoBufferMode(maxSize int, dir string) func(io.Reader) (buffer.Buffer, error) {
 	return func(r io.Reader) (buffer.Buffer, error) {
 		// First try to read up to N bytes.
+		//
+		// io.ReadFull is not used: it reports a message that ended before N
+		// bytes as io.ErrUnexpectedEOF, the same error the SMTP DATA reader
+		// returns if the connection is lost before the end of the message.
 		initial := make([]byte, maxSize)
-		actualSize, err := io.ReadFull(r, initial)
-		if err != nil {
-			if err == io.ErrUnexpectedEOF {
+		actualSize := 0
+		for actualSize < maxSize {
+			n, err := r.Read(initial[actualSize:])
+			actualSize += n
+			if err == io.EOF {
+				if actualSize == 0 {
+					// Special case: message with empty body.
+					return buffer.MemoryBuffer{}, nil
+				}
 				log.Debugln("autobuffer: keeping the message in RAM (read", actualSize, "bytes, got EOF)")
 				return buffer.MemoryBuffer{Slice: initial[:actualSize]}, nil
 			}
-			if err == io.EOF {
-				// Special case: message with empty body.
-				return buffer.MemoryBuffer{}, nil
+			if err != nil {
+				// Some I/O error happened, bail out.
+				return nil, err
 			}
-			// Some I/O error happened, bail out.
-			return nil, err
 		}
 		if actualSize < maxSize {
 			// Ok, the message is smaller than N. Make a MemoryBuffer and
